@@ -264,13 +264,13 @@ def recheck(replay, text):
 def run(ctx, b, drv):
     pend = base.Pending(ctx)
     base.obligations(ctx, b, pend, ['Engine.v'])
-    base.mismatches(ctx, pend, streams.run_parse(ctx, base.scale(ctx, 600), drv, kinds=['valid', 'mutate']), None)
+    base.mismatches(ctx, pend, streams.run_parse(ctx, base.scale(ctx, 600), drv, kinds=['valid', 'mutate', 'semantic']), None)
     r = gens.rng(ctx.seed, 'c14', 0)
     nfiles = 25 if ctx.tier == 'quick' else 400
     ngen = 600 if ctx.tier == 'quick' else 8000
     srcs = list(refpy.stdlib_files(GV, nfiles, r))
     for i in range(ngen):
-        kind, code = gens.text_case(ctx.seed, 'c14', i, ['valid', 'mutate', 'valid', 'oneliner'])
+        kind, code = gens.text_case(ctx.seed, 'c14', i, ['valid', 'mutate', 'semantic', 'oneliner'])
         srcs.append(('gen:%s:%d' % (kind, i), code))
     for i in range(ngen):
         srcs.append(('derived:%d' % i, gens.derived(gens.rng(ctx.seed, 'derived-C14', i), GV)))
